@@ -37,7 +37,6 @@ type txinfo struct {
 	slots      int
 	kind       string
 	wrongChain bool
-	localFlag  bool // indexed as local by the pool (submitted locally or sender local at the time)
 	// why the model does not hold it (for signatures)
 	gone string
 }
@@ -95,12 +94,14 @@ type model struct {
 	S     []map[uint64]*txinfo
 	local []bool
 	price *big.Int
-	limit bool   // a limit was (possibly) hit during the current step
-	why   string // which
+	lflag map[int]bool // by tx id: indexed as local by the pool (submitted locally or sender local at the time)
+	spec  bool         // speculative copy (planning): must not touch the shared txinfo records
+	limit bool         // a limit was (possibly) hit during the current step
+	why   string       // which
 }
 
 func newModel(cfg mcfg, st *chainView, n int) *model {
-	m := &model{cfg: cfg, st: st, price: big.NewInt(1)}
+	m := &model{cfg: cfg, st: st, price: big.NewInt(1), lflag: map[int]bool{}}
 	for i := 0; i < n; i++ {
 		m.S = append(m.S, map[uint64]*txinfo{})
 		m.local = append(m.local, false)
@@ -109,7 +110,10 @@ func newModel(cfg mcfg, st *chainView, n int) *model {
 }
 
 func (m *model) clone() *model {
-	c := &model{cfg: m.cfg, st: m.st.copy(), price: new(big.Int).Set(m.price), limit: m.limit, why: m.why}
+	c := &model{cfg: m.cfg, st: m.st.copy(), price: new(big.Int).Set(m.price), limit: m.limit, why: m.why, spec: true, lflag: map[int]bool{}}
+	for k, v := range m.lflag {
+		c.lflag[k] = v
+	}
 	for _, s := range m.S {
 		ns := map[uint64]*txinfo{}
 		for k, v := range s {
@@ -119,6 +123,12 @@ func (m *model) clone() *model {
 	}
 	c.local = append(c.local, m.local...)
 	return c
+}
+
+func (m *model) setGone(ti *txinfo, why string) {
+	if !m.spec {
+		ti.gone = why
+	}
 }
 
 func (m *model) hit(why string) {
@@ -251,17 +261,17 @@ func (m *model) add(ti *txinfo, localCall bool) (verdict, string) {
 
 func (m *model) accept(ti *txinfo, localCall bool) {
 	if old, ok := m.S[ti.acct][ti.nonce]; ok {
-		old.gone = "replaced"
+		m.setGone(old, "replaced")
 	}
 	m.S[ti.acct][ti.nonce] = ti
-	ti.gone = ""
-	ti.localFlag = m.local[ti.acct]
+	m.setGone(ti, "")
+	m.lflag[ti.id] = m.local[ti.acct]
 	if localCall && !m.cfg.noLocals {
 		m.local[ti.acct] = true
 	}
 	if m.local[ti.acct] {
 		for _, x := range m.S[ti.acct] {
-			x.localFlag = true
+			m.lflag[x.id] = true
 		}
 	}
 }
@@ -272,13 +282,13 @@ func (m *model) settle() {
 		for n, ti := range m.S[a] {
 			switch {
 			case n < m.st.nonce[a]:
-				ti.gone = "mined (nonce below the state nonce)"
+				m.setGone(ti, "mined (nonce below the state nonce)")
 				delete(m.S[a], n)
 			case ti.cost().Cmp(m.st.bal[a]) > 0:
-				ti.gone = "unaffordable at the current balance"
+				m.setGone(ti, "unaffordable at the current balance")
 				delete(m.S[a], n)
 			case ti.gas > m.st.gasLimit:
-				ti.gone = "above the block gas limit"
+				m.setGone(ti, "above the block gas limit")
 				delete(m.S[a], n)
 			}
 		}
@@ -309,8 +319,8 @@ func (m *model) setPrice(p *big.Int) {
 	}
 	for a := range m.S {
 		for n, ti := range m.S[a] {
-			if !ti.localFlag && !m.local[a] && ti.price.Cmp(p) < 0 {
-				ti.gone = "priced out by SetGasPrice"
+			if !m.lflag[ti.id] && !m.local[a] && ti.price.Cmp(p) < 0 {
+				m.setGone(ti, "priced out by SetGasPrice")
 				delete(m.S[a], n)
 			}
 		}
